@@ -454,6 +454,9 @@ func (ts *TermStore) Bin(op Op, a, b *Term) *Term {
 				return q
 			}
 		}
+		if n := ts.narrowDiv(OpUDiv, a, b); n != nil {
+			return n
+		}
 	case OpURem:
 		if b.op == OpConst && b.val == 1 {
 			return ts.Const(w, 0)
@@ -469,6 +472,9 @@ func (ts *TermStore) Bin(op Op, a, b *Term) *Term {
 			if q := ts.udivByRange(a, b.val); q != nil {
 				return ts.Bin(OpSub, a, ts.Bin(OpMul, q, b))
 			}
+		}
+		if n := ts.narrowDiv(OpURem, a, b); n != nil {
+			return n
 		}
 	case OpSDiv:
 		if b.op == OpConst && b.val == 1 {
@@ -762,6 +768,24 @@ func (ts *TermStore) udivByRange(a *Term, c uint64) *Term {
 		r = ts.Ite(ts.Cmp(OpULe, ts.Const(a.w, q*c), a), ts.Const(a.w, q), r)
 	}
 	return r
+}
+
+// narrowDiv: an unsigned division/remainder whose operands both fit k <= w/2 bits is done at k bits
+// (the divider the solver has to bit-blast shrinks quadratically).
+func (ts *TermStore) narrowDiv(op Op, a, b *Term) *Term {
+	_, ha := ts.ubounds(a)
+	lb, hb := ts.ubounds(b)
+	if lb == 0 { // division by zero has its own SMT-LIB value at each width
+		return nil
+	}
+	k := bits.Len64(ha | hb)
+	if k == 0 {
+		k = 1
+	}
+	if k > a.w/2 {
+		return nil
+	}
+	return ts.ZExt(ts.Bin(op, ts.Extract(a, k-1, 0), ts.Extract(b, k-1, 0)), a.w)
 }
 
 // constLeaves: t is an ite tree (at most n nodes) whose leaves are all constants.
